@@ -109,8 +109,9 @@ class Palette(object):
                 got = units[:k]
                 if pos < len(text):
                     got = got + [['~', len(text)]]
-                if best is None or len(got) > len(best):
-                    best = got
+                rank = (0 if pos < len(text) else 1, len(got))      # an exact cut at a unit boundary is preferred
+                if best is None or rank > best_rank:
+                    best, best_rank = got, rank
         return best if best is not None else [['~', len(text)]]
 
 
@@ -224,22 +225,90 @@ class Proc(object):
                 self.kill()
 
 
+class Local(object):
+    """the command handlers, working on THIS process's pyg_base._cfg (re-executed at construction: a new
+    process as far as the module is concerned).  Used by the served child processes and - where no
+    process has to die - directly by the driver's workers."""
+    def __init__(self, env, palette=None, keyord=('a', 'b'), say=None, wait_go=None):
+        if env is None:
+            os.environ.pop('PYG_CFG', None)
+        else:
+            os.environ['PYG_CFG'] = env
+        import pyg_base                                    # noqa: F401
+        self.mod = importlib.reload(sys.modules['pyg_base._cfg'])     # CFG from the environment, CACHE = {}
+        self.palette = palette or Palette()
+        self.keyord = list(keyord)
+        self.ids = {}                                      # object identity -> small number (objects kept alive)
+        self.keep = []
+        self.say, self.wait_go = say, wait_go
+
+    def ident(self, o):
+        if id(o) not in self.ids:
+            self.ids[id(o)] = len(self.ids) + 1; self.keep.append(o)
+        return self.ids[id(o)]
+
+    def handle(self, m):
+        mod, palette, keyord = self.mod, self.palette, self.keyord
+        op = m['op']
+        if op == 'read':
+            try:
+                r = mod.cfg_read()
+            except Exception as e:
+                return {'ok': 0, 'cls': type(e).__name__, 'cfg': []}
+            if not isinstance(r, dict):
+                return {'ok': 0, 'cls': 'returned ' + type(r).__name__, 'cfg': []}
+            return {'ok': 1, 'cfg': palette.enc_cfg(r, keyord), 'id': self.ident(r), 'keys': sorted(map(str, r.keys())),
+                    'is_cache': 1 if r is mod.CACHE.get('CFG') else 0}
+        if op == 'write':
+            cfg = palette.cfg(m['cfg'])
+            before = json.dumps(m['cfg'])
+            if m.get('stepwise'):
+                mod.open = _stepping_open(m.get('cuts', []), self.say, self.wait_go)
+            try:
+                events = -1
+                if m.get('die_at') is not None:
+                    events = _die_at(mod, cfg, m['die_at'], m.get('count_only', False))
+                else:
+                    mod.cfg_write(cfg)
+                return {'done': 1, 'events': events, 'id': self.ident(cfg), 'arg_after': palette.enc_cfg(cfg, keyord),
+                        'arg_before': json.loads(before), 'cache_is_arg': 1 if mod.CACHE.get('CFG') is cfg else 0}
+            except Exception as e:
+                return {'done': 0, 'cls': type(e).__name__}
+            finally:
+                if m.get('stepwise'):
+                    del mod.open
+        if op == 'get_cache':
+            try:
+                r = mod.get_cache(*m['names'])
+                if type(r) is not dict:
+                    return {'ok': 0, 'cls': 'returned ' + type(r).__name__}
+                return {'ok': 1, 'id': self.ident(r), 'keys': sorted(map(str, r.keys()))}
+            except Exception as e:
+                return {'ok': 0, 'cls': type(e).__name__}
+        if op == 'store':                        # put an item into the object get_cache(*names) returns
+            try:
+                mod.get_cache(*m['names'])[m['key']] = m['value']
+                return {'ok': 1}
+            except Exception as e:
+                return {'ok': 0, 'cls': type(e).__name__}
+        if op == 'fetch':
+            try:
+                d = mod.get_cache(*m['names'])
+                v = d.get(m['key'], 0)
+                return {'ok': 1, 'has': 1 if m['key'] in d else 0, 'val': palette.back(v) if m['key'] in d else 0}
+            except Exception as e:
+                return {'ok': 0, 'cls': type(e).__name__}
+        if op == 'mkdir':
+            try:
+                r = mod.mkdir(m['path'])
+                return {'ok': 1, 'same': 1 if r == m['path'] else 0}
+            except Exception as e:
+                return {'ok': 0, 'cls': type(e).__name__}
+        return {'error': 'unknown op %s' % op}
+
+
 def _serve(env, rd, wr, palette, keyord):
     """child side"""
-    if env is None:
-        os.environ.pop('PYG_CFG', None)
-    else:
-        os.environ['PYG_CFG'] = env
-    import pyg_base                                    # noqa: F401  (already imported before the fork)
-    mod = importlib.reload(sys.modules['pyg_base._cfg'])     # a new process: CFG from the environment, CACHE = {}
-    ids = {}                                           # object identity -> small number (objects kept alive)
-    keep = []
-
-    def ident(o):
-        if id(o) not in ids:
-            ids[id(o)] = len(ids) + 1; keep.append(o)
-        return ids[id(o)]
-
     def say(m):
         wr.write(json.dumps(m) + '\n'); wr.flush()
 
@@ -249,88 +318,35 @@ def _serve(env, rd, wr, palette, keyord):
             os._exit(0)
         return json.loads(line)
 
-    def enc_read():
-        try:
-            r = mod.cfg_read()
-        except Exception as e:
-            return {'ok': 0, 'cls': type(e).__name__, 'cfg': []}
-        if not isinstance(r, dict):
-            return {'ok': 0, 'cls': 'returned ' + type(r).__name__, 'cfg': []}
-        return {'ok': 1, 'cfg': palette.enc_cfg(r, keyord), 'id': ident(r),
-                'is_cache': 1 if r is mod.CACHE.get('CFG') else 0}
-
+    me = Local(env, palette, keyord, say, wait_go)
     while True:
         line = rd.readline()
         if not line:
             os._exit(0)
         m = json.loads(line)
-        op = m['op']
-        if op == 'exit':
+        if m['op'] == 'exit':
             wr.close()
             os._exit(0)
-        elif op == 'read':
-            say(enc_read())
-        elif op == 'write':
-            cfg = palette.cfg(m['cfg'])
-            before = json.dumps(m['cfg'])
-            if m.get('stepwise'):
-                mod.open = _stepping_open(m.get('cuts', []), say, wait_go)
-            try:
-                if m.get('die_at') is not None:
-                    _die_at(mod, cfg, m['die_at'], m.get('count_only', False), say)
-                else:
-                    res = mod.cfg_write(cfg)
-                out = {'done': 1, 'id': ident(cfg), 'arg_after': palette.enc_cfg(cfg, keyord), 'arg_before': json.loads(before),
-                       'cache_is_arg': 1 if mod.CACHE.get('CFG') is cfg else 0}
-            except Exception as e:
-                out = {'done': 0, 'cls': type(e).__name__}
-            finally:
-                if m.get('stepwise'):
-                    del mod.open
-            say(out)
-        elif op == 'get_cache':
-            try:
-                r = mod.get_cache(*m['names'])
-                say({'ok': 1, 'id': ident(r), 'isdict': 1 if type(r) is dict else 0, 'keys': sorted(map(str, r.keys()))})
-            except Exception as e:
-                say({'ok': 0, 'cls': type(e).__name__})
-        elif op == 'store':                      # put an item into the object get_cache(*names) returns
-            try:
-                mod.get_cache(*m['names'])[m['key']] = m['value']
-                say({'ok': 1})
-            except Exception as e:
-                say({'ok': 0, 'cls': type(e).__name__})
-        elif op == 'fetch':
-            try:
-                d = mod.get_cache(*m['names'])
-                say({'ok': 1, 'has': 1 if m['key'] in d else 0, 'value': d.get(m['key'], -1) if not isinstance(d.get(m['key']), dict) else -2})
-            except Exception as e:
-                say({'ok': 0, 'cls': type(e).__name__})
-        elif op == 'mkdir':
-            try:
-                r = mod.mkdir(m['path'])
-                say({'ok': 1, 'same': 1 if r == m['path'] else 0})
-            except Exception as e:
-                say({'ok': 0, 'cls': type(e).__name__})
-        else:
-            say({'error': 'unknown op %s' % op})
+        say(me.handle(m))
 
 
 def _stepping_open(cuts, say, wait_go):
     """an `open` for pyg_base._cfg that lets the driver single-step a write; reading is not touched.
-    cuts: the numbers of characters after which the text written so far is moved to the disk (and the
-    process reports and waits), increasing."""
+    cuts: one list per file opened for writing, in the order of the opens: the numbers of characters after
+    which the text written so far is moved to the disk (and the process reports and waits), increasing."""
     import builtins
-    cuts = list(cuts)
+    plan = [list(c) for c in cuts]
 
     class F(object):
-        def __init__(self, real):
+        def __init__(self, real, cuts):
             self.real = real
+            self.cuts = cuts
             self.pending = ''
             self.sent = 0             # characters handed to the operating system
 
         def write(self, s):
             self.pending += s
+            cuts = self.cuts
             while cuts and self.sent + len(self.pending) >= cuts[0]:
                 n = cuts.pop(0) - self.sent
                 self.real.write(self.pending[:n]); self.real.flush()
@@ -367,12 +383,12 @@ def _stepping_open(cuts, say, wait_go):
         real = builtins.open(path, mode, *a, **kw)
         say({'at': 'opened', 'path': path})
         wait_go()
-        return F(real)
+        return F(real, plan.pop(0) if plan else [])
 
     return opener
 
 
-def _die_at(mod, cfg, n, count_only, say):
+def _die_at(mod, cfg, n, count_only):
     """run the real cfg_write and die (SIGKILL to myself) at the n-th traced event: a new line of Python
     code or a call of a builtin, anywhere below cfg_write.  count_only: run to the end and report how many
     events there were."""
@@ -397,7 +413,4 @@ def _die_at(mod, cfg, n, count_only, say):
         mod.cfg_write(cfg)
     finally:
         sys.settrace(None); sys.setprofile(None)
-    if count_only:
-        say({'events': state['k']})
-    elif state['k'] <= n:
-        pass                      # the write ended before the n-th event: it completed
+    return state['k']             # reached only when the write ended before the n-th event: it completed
